@@ -122,6 +122,11 @@ def main():
         chs = [ck.rng.choice(pool) for _ in range(n)]
         src, _ = assemble(ck.rng, chs, -1, None)
         cases.append(("control", src, None, -1, n))
+    # a Go line directive inside the metavariable section, ahead of the fault on the section's last line (known finding F37)
+    for cm in ("/*line other.go:100:1*/", "/*line :7:3*/"):
+        l9 = "var z %s identifer" % cm
+        cases.append(("line-directive", ("@@\nvar x identifier\n@@\n-foo()\n+bar()\n\n@@\nvar y identifier\n%s\n@@\n-bar()\n+baz()\n" % l9).encode(),
+                      (9, l9.index("identifer") + 1, "unknown metavariable type"), 1, 2))
     res = frontend.analyse([c[1] for c in cases], name="my.patch")
     for (fname, src, fault, kf, n), r in zip(cases, res):
         ck.count((fname, src))
@@ -143,15 +148,19 @@ def main():
         if not err:
             ck.violation("faulty patch (%s) was accepted" % fname, rep)
         elif not any(p[0] == "my.patch" for p in pos):
-            ck.violation("rejected patch (%s): no diagnostic names the patch file: %r" % (fname, err[:200]), rep)
+            ck.violation("rejected patch (%s): no diagnostic names the patch file: %r" % (fname, err[:200]), rep,
+                         finding_class="line-directive-in-metavariable-section" if fname == "line-directive" else None)
         elif col is None:
             pass  # the offending token is whatever follows on a later line: judged through the model only
         elif ("my.patch", line, col) not in pos:
             ck.violation("diagnostic for %s does not point at the offending token: expected my.patch:%d:%d, got %r"
-                         % (fname, line, col, err[:200]), rep)
+                         % (fname, line, col, err[:200]), rep,
+                         finding_class="line-directive-in-metavariable-section" if fname == "line-directive" else None)
         elif kind not in err:
             ck.violation("diagnostic for %s at the right place but of the wrong kind: %r" % (fname, err[:200]), rep)
-        # ---- model
+        # ---- model (line directives are go/scanner's business, not modelled)
+        if fname == "line-directive":
+            continue
         if r["mismatches"]:
             ck.mismatch("front-end model and gopatch disagree (%s): %s" % (fname, "; ".join(r["mismatches"][:3])), rep,
                         "corr:section (Model/Section.v split vs internal/parse/section)")
